@@ -188,28 +188,38 @@ def c05_rules(m):
     r8 = RuleResult("C05.R8", "every physical line is tab-expanded and stripped of trailing blanks before columns are interpreted")
     r8.floor = 4
     gsl = m.need_func(RF, "FortranReaderBase.get_single_line")
-    norm = None
-    for n in A.body_nodes(gsl.node):
-        if isinstance(n, ast.Assign) and A.text(n.targets[0]) == "line" and any(
-                isinstance(c, ast.Call) and isinstance(c.func, ast.Attribute) and c.func.attr == "expandtabs" for c in ast.walk(n.value)):
-            norm = n
-    if norm is None:
-        r8.error("get_single_line: the normalisation of the physical line (expandtabs ...) was not found")
+    # the straight-line stretch of get_single_line from the first normalising assignment of `line` to the point where the line is
+    # recorded (self.source_lines.append(line)), interpreted as a whole with conditional-line handling switched off
+    body = gsl.node.body
+    first = last = None
+    for i_, s_ in enumerate(body):
+        if first is None and isinstance(s_, ast.Assign) and A.text(s_.targets[0]) == "line" and any(
+                isinstance(c, ast.Call) and isinstance(c.func, ast.Attribute) and c.func.attr in ("expandtabs", "rstrip", "strip") for c in ast.walk(s_.value)):
+            first = i_
+        if isinstance(s_, ast.Expr) and isinstance(s_.value, ast.Call) and A.text(s_.value.func) == "self.source_lines.append":
+            last = i_
+    if first is None or last is None or last < first:
+        r8.error("get_single_line: the normalisation of the physical line up to `self.source_lines.append(line)` was not found")
     else:
         ev8 = evaluator(m, RF)
+        stretch = body[first:last + 1]
         for raw, want in (("      x = 'abc       \n", "      x = 'abc"), ("      x = 1\r\n", "      x = 1"), ("\tx = 1\n", "        x = 1"),
                           ("   10\tcontinue  \t\n", "   10   continue"), ("      y\xa0= 2 \n", "      y = 2"), ("\n", ""), ("      x = 1", "      x = 1")):
             r8.instances += 1
+            recorded = []
+            me = PE.Obj({"_include_omp_conditional_lines": False, "_format": PE.Obj({"is_fixed": True, "is_f77": False}), "source_lines": recorded})
+            env = {"line": raw, "self": me}
             try:
-                got = ev8.ev(norm.value, {"line": raw})
+                ev8.block(stretch, env)
             except (PE.Unsupported, PE.PyRaise) as err:
-                r8.error("cannot interpret `%s` (%s)" % (A.text(norm.value), err))
+                r8.error("cannot interpret the normalisation stretch of get_single_line (%s)" % err)
                 break
-            ok = got == want
+            got = recorded[-1] if recorded else None
+            ok = got == want and env.get("line") == want
             r8.ob(ok, "%r -> %r" % (raw, got))
             if not ok:
-                r8.fail("normalise|%r" % raw, "get_single_line turns the physical line %r into %r, expected %r: trailing blanks end up inside "
-                        "continued character literals / blank lines are not recognised" % (raw, got, want), m.loc(gsl, norm))
+                r8.fail("normalise|%r" % raw, "get_single_line records the physical line %r as %r (continues with %r), expected %r: tabs shift the "
+                        "columns / trailing blanks end up inside continued character literals" % (raw, got, env.get("line"), want), m.loc(gsl, stretch[0]))
     out.append(r8)
     # ---------------------------------------------------------------- R5 label conversion
     r = RuleResult("C05.R5", "the fixed-form label conversion is total on the label field (blanks are insignificant) and reads columns 1-5")
@@ -595,11 +605,12 @@ def label_name_rules(m, rid):
 # =================================================================================================
 class SentinelClient(F.Client):
     """$raw: the current line came from the source and has not been through replace_omp_sentinels yet."""
-    track = {"$raw", "@omp", "@fixed", "line", "ignore_comments", "ignore_empty"}
+    track = {"$raw", "$norm", "@omp", "@fixed", "line", "ignore_comments", "ignore_empty"}
 
     def __init__(self, readers):
         self.readers = readers     # names of methods that read a physical line from the source
         self.bad = []
+        self.unnormalised = []
         self.attr_vars = {"self._include_omp_conditional_lines": "@omp", "self._format.is_fixed": "@fixed"}
 
     def _is_read(self, call):
@@ -615,11 +626,20 @@ class SentinelClient(F.Client):
             return ("IndexError",)
         return ()
 
+    def stmt_effect(self, s, st):
+        # `line = line.expandtabs()...`: from here on the columns are the ones the sentinel pattern describes
+        if isinstance(s, ast.Assign) and any(isinstance(c, ast.Call) and isinstance(c.func, ast.Attribute) and c.func.attr == "expandtabs"
+                                             for c in ast.walk(s.value)):
+            return st.set("$norm", F.TRUE)
+        return st
+
     def call_effect(self, call, st):
         t = A.text(call.func)
         if self._is_read(call):
-            return (st.set("$raw", F.TRUE),)
+            return (st.set("$raw", F.TRUE).set("$norm", F.FALSE),)
         if t.endswith("replace_omp_sentinels"):
+            if st.get("$norm") != F.TRUE and st.get("$raw") == F.TRUE:
+                self.unnormalised.append(call)
             return (st.set("$raw", F.FALSE),)
         if t == "_is_fix_comment" and st.get("$raw") == F.TRUE:
             self.bad.append((call, "is classified as a comment"))
@@ -657,7 +677,13 @@ def c15_flow_rule(m):
                 readers.add(name)
     cl = SentinelClient(readers)
     fl = SentinelFlow(m, gsl, cl)
-    out = fl.run(F.State({"$raw": F.FALSE, "@omp": F.TRUTHY, "@fixed": F.TRUTHY}))
+    out = fl.run(F.State({"$raw": F.FALSE, "$norm": F.FALSE, "@omp": F.TRUTHY, "@fixed": F.TRUTHY}))
+    r.instances += 1
+    r.ob(not cl.unnormalised, "get_single_line: the sentinel pattern is applied to the tab-expanded line")
+    if cl.unnormalised:
+        r.fail("get_single_line|sentinel-before-expandtabs", "get_single_line applies the fixed-form sentinel pattern to the line as read, before "
+               "tabs are expanded: the pattern describes columns 3-6 as blanks/digits, so a tab-formatted conditional line "
+               "(`c$<TAB>i = 1`) stays a comment", m.loc(gsl, cl.unnormalised[0]))
     r.instances += 1
     bad = list(cl.bad)
     n = 0
